@@ -66,7 +66,7 @@ def main():
         "not_applicable": na,
         "notes": "Runtime monitoring only (DESIGN.md). Exit 0 = held on everything explored (KNOWN-FINDING lines for "
                  "findings listed in KNOWN_FINDINGS.txt), 1 = VIOLATION with replay file, 2 = INCONCLUSIVE (a deciding "
-                 "monitor was never reached). Repository fixes are the thirteen 'fix:' commits recorded in KNOWN_FINDINGS.txt.",
+                 "monitor was never reached). Repository fixes are the fourteen 'fix:' commits recorded in KNOWN_FINDINGS.txt.",
     }
     with open(os.path.join(ROOT, "MANIFEST.json"), "w") as f:
         json.dump(manifest, f, indent=1)
